@@ -108,8 +108,15 @@ class Cyc:
         return self._next() % n
 
 
-def tok(typ, rnd, simple=False, newline=None):
+def tok(typ, rnd, simple=False, newline=None, pools=None):
     """-> ((type, value), source text)"""
+    if pools and typ in pools:
+        v = rnd.choice(pools[typ])
+        if typ == 'NUMBER':
+            return (typ, Decimal(v)), v
+        if typ == 'STRING':
+            return (typ, string_value(v)), v
+        return (typ, v), v
     if typ == 'NAME':
         v = rnd.choice(NAMES[:4] if simple else NAMES)
         return (typ, v), v
@@ -128,7 +135,7 @@ def tok(typ, rnd, simple=False, newline=None):
     return (typ, TEXT[typ]), TEXT[typ]
 
 
-def render(types, rnd, simple=False, newline=None):
+def render(types, rnd, simple=False, newline=None, pools=None):
     """-> (token list [(type, value)], text with single blanks between tokens)"""
     pairs, depth = [], 0
     for t in types:
@@ -137,7 +144,7 @@ def render(types, rnd, simple=False, newline=None):
         elif t in ('RPAREN', 'RBRACKET', 'RBRACE'):
             depth -= 1
         # a line break is a token only at bracket depth 0: elsewhere the NEWLINE token must be ';'
-        pairs.append(tok(t, rnd, simple, ';' if (t == 'NEWLINE' and depth != 0) else newline))
+        pairs.append(tok(t, rnd, simple, ';' if (t == 'NEWLINE' and depth != 0) else newline, pools))
     return [p[0] for p in pairs], ' '.join(p[1] for p in pairs)
 
 
@@ -175,7 +182,7 @@ def operator_pairs(types):
     return set(zip(ops, ops[1:]))
 
 
-def render_layout(types, rnd, bracket_newlines=0.25, extra_blanks=0.2, comments=0.0, newline=None, simple=False):
+def render_layout(types, rnd, bracket_newlines=0.25, extra_blanks=0.2, comments=0.0, newline=None, simple=False, pools=None):
     """Rendering with layout noise that the grammar declares insignificant.  Tokens stay separated by at
     least one blank (or a line break where that is not a token), so boundaries remain ground truth.
     -> (token list, text, spans[(start, end)] per token)"""
@@ -200,7 +207,7 @@ def render_layout(types, rnd, bracket_newlines=0.25, extra_blanks=0.2, comments=
             parts.append(gap)
             pos += len(gap)
         nl = ';' if (t == 'NEWLINE' and (depth != 0)) else newline
-        tk, s = tok(t, rnd, simple, nl)
+        tk, s = tok(t, rnd, simple, nl, pools)
         if t == 'NEWLINE' and comments and s != ';' and rnd.random() < comments:
             c = '# note ; ( "'
             parts.append(c + ' ')
